@@ -161,9 +161,9 @@ def add_plus_one(
 
     carries = _get_new_labels(circuit, out_len, other_restrictions=result_labels)
     circuit.add_gate(Gate(carries[0], gate.IFF, (input_labels[0],)))
-    circuit.add_gate(
-        Gate(result_labels[0], gate.NOT, (input_labels[0],))
-    ).mark_as_output(result_labels[0])
+    circuit.add_gate(Gate(result_labels[0], gate.NOT, (input_labels[0],)))
+    if add_outputs:
+        circuit.mark_as_output(result_labels[0])
 
     for i in range(1, out_len):
         if i < inp_len:
@@ -189,8 +189,17 @@ def add_plus_one(
         input_labels = input_labels[::-1]
         result_labels = result_labels[::-1]
 
-    circuit.order_inputs(input_labels)
-    circuit.order_outputs(result_labels)
+    # only inputs of the circuit can be ordered, while the subcircuit can be fed by
+    # arbitrary gates, and results are among the outputs only if it was requested
+    circuit.order_inputs(
+        [
+            label
+            for label in dict.fromkeys(input_labels)
+            if label in circuit.inputs
+        ]
+    )
+    if add_outputs:
+        circuit.order_outputs(result_labels)
     return result_labels
 
 
